@@ -157,6 +157,13 @@ func (g *gen) lookupName(env *specEnv, name string) (Val, error) {
 		if v, ok := env.vars[name+"$result"]; ok {
 			return v, nil
 		}
+		if dr, ok := g.debugVals[name]; ok {
+			v := g.val(dr.v)
+			if dr.isAddr {
+				return g.load(v, dr.v.Type().Underlying().(*types.Pointer).Elem()), nil
+			}
+			return v, nil
+		}
 		for _, fv := range fn.FreeVars {
 			if fv.Name() == name {
 				pv := g.val(fv)
@@ -172,13 +179,6 @@ func (g *gen) lookupName(env *specEnv, name string) (Val, error) {
 					}
 				}
 			}
-		}
-		if dr, ok := g.debugVals[name]; ok {
-			v := g.val(dr.v)
-			if dr.isAddr {
-				return g.load(v, dr.v.Type().Underlying().(*types.Pointer).Elem()), nil
-			}
-			return v, nil
 		}
 		// values named through phi comments anywhere in the function (latest definition wins)
 		var found *Val
@@ -778,7 +778,7 @@ func (g *gen) evalCall(env *specEnv, e *SExpr) (Val, error) {
 		return intVal(ite(app(">=", args[0].T, args[1].T), args[0].T, args[1].T)), nil
 	}
 	// spec functions: macro expansion / abstract functions
-	if sf, ok := g.e.specs[e.Name]; ok {
+	if sf := g.findSpec(env, e.Name); sf != nil {
 		if len(sf.Params) != len(args) {
 			return Val{}, fmt.Errorf("%s expects %d arguments", e.Name, len(sf.Params))
 		}
@@ -905,6 +905,38 @@ func (g *gen) placeOf(env *specEnv, e *SExpr) (*Place, error) {
 			}
 		}
 	case "call":
+		if e.Name == "any" && len(e.Args) == 1 && e.Args[0].Op == "sel" {
+			// any(T.f) / any(pkg.T.f): field f of every object of struct type T
+			tn := ""
+			switch x := e.Args[0].Args[0]; {
+			case x.Op == "id":
+				tn = x.Name
+			case x.Op == "sel" && x.Args[0].Op == "id":
+				tn = x.Args[0].Name + "." + x.Name
+			}
+			t := g.resolveType(env, tn)
+			if t == nil {
+				return nil, fmt.Errorf("any(): unknown type %q", tn)
+			}
+			obj, path := lookupFieldAnyPkg(t, e.Args[0].Name)
+			if obj == nil || len(path) != 1 {
+				return nil, fmt.Errorf("any(): no field %s in %s", e.Args[0].Name, t)
+			}
+			return &Place{Kind: plField, Ref: "*", Struct: g.st.structName(t), Field: e.Args[0].Name, Elem: obj.Type()}, nil
+		}
+		if e.Name == "object" && len(e.Args) == 1 {
+			// object(p): every field of the struct p points to
+			x, err := g.evalSpec(env, e.Args[0])
+			if err != nil {
+				return nil, err
+			}
+			if pt, ok := x.Typ.Underlying().(*types.Pointer); ok {
+				if _, ok := structOf(pt.Elem()); ok {
+					return &Place{Kind: plField, Ref: x.T, Struct: g.st.structName(pt.Elem()), Field: "*", Elem: pt.Elem()}, nil
+				}
+			}
+			return nil, fmt.Errorf("object(): %s is not a pointer to a struct", e.Args[0])
+		}
 		if e.Name == "mapof" && len(e.Args) == 1 {
 			x, err := g.evalSpec(env, e.Args[0])
 			if err != nil {
@@ -1011,7 +1043,7 @@ func (g *gen) opaqueCall(env *specEnv, sf *SpecFunc, args []Val) (Val, error) {
 	if g.opaques == nil {
 		g.opaques = map[string]*opaqueDef{}
 	}
-	def := g.opaques[sf.Name]
+	def := g.opaques[sf.Pkg+"|"+sf.Name]
 	if def == nil {
 		// pass A: discover the heap keys read by the body
 		var psorts []string
@@ -1076,7 +1108,7 @@ func (g *gen) opaqueCall(env *specEnv, sf *SpecFunc, args []Val) (Val, error) {
 		g.assumeGlobal(fmt.Sprintf("(forall (%s) (! (= (%s %s) %s) :pattern ((%s %s))))", strings.Join(binders, " "), name, strings.Join(appArgs, " "), body.T, name, strings.Join(appArgs, " ")))
 		_, rt := binderSort(g, env, Binder{Type: sf.Ret})
 		def = &opaqueDef{name: "opq_" + sanitize(sf.Name), keys: keys, ret: body.Sort, rtyp: rt}
-		g.opaques[sf.Name] = def
+		g.opaques[sf.Pkg+"|"+sf.Name] = def
 	}
 	var ts []string
 	for _, a := range args {
@@ -1171,4 +1203,36 @@ func (g *gen) findPkg(env *specEnv, pn string) *types.Package {
 		}
 	}
 	return best
+}
+
+// findSpec: package-local spec functions (of the package the expression is evaluated in) shadow global ones;
+// spec functions of other repository packages are visible too when the name is unambiguous.
+func (g *gen) findSpec(env *specEnv, name string) *SpecFunc {
+	if env != nil && env.pkg != nil {
+		if m := g.e.pkgSpecs[shortPkg(env.pkg.Path())]; m != nil {
+			if sf := m[name]; sf != nil {
+				return sf
+			}
+		}
+	}
+	if sf := g.e.specs[name]; sf != nil {
+		return sf
+	}
+	var found *SpecFunc
+	var pkgs []string
+	for p := range g.e.pkgSpecs {
+		pkgs = append(pkgs, p)
+	}
+	sortStrings(pkgs)
+	for _, p := range pkgs {
+		if sf := g.e.pkgSpecs[p][name]; sf != nil {
+			if found != nil && found.Src != sf.Src {
+				return found // ambiguous: first in path order (deterministic)
+			}
+			if found == nil {
+				found = sf
+			}
+		}
+	}
+	return found
 }
